@@ -18,7 +18,7 @@ def render(vals=None):
     v = vals or {'wg': (1, 2, 3), 'res': 'struct', 'members': [('loc', 0), ('builtin', 0), ('loc', 1), ('loc', 2)], 'loc': 0,
                  'extra_stage': 2}
     out = ['struct VIn { @location(0) a: vec4<f32>, @location(1) b: vec2<f32> }',
-           'struct VInst { @location(2) m: vec4<f32> }']
+           'struct VInst { @location(2) m: vec4<f32> }', 'struct VBuiltins { @builtin(vertex_index) vi: u32, @builtin(instance_index) ii: u32 }']
     ms = []
     nb = 0
     for i, (k, l) in enumerate(v['members']):
@@ -28,7 +28,7 @@ def render(vals=None):
             ms.append(f'@builtin(frag_depth) c{i}: f32' if nb == 0 else f'@builtin(sample_mask) c{i}: u32')
             nb += 1
     out.append('struct FOut { ' + ', '.join(ms) + ' }')
-    out.append(f'@vertex fn {NAMES["vs"]}(in: VIn, @builtin(vertex_index) vi: u32, inst: VInst) -> @builtin(position) vec4<f32> '
+    out.append(f'@vertex fn {NAMES["vs"]}(in: VIn, bi: VBuiltins, inst: VInst) -> @builtin(position) vec4<f32> '
                '{ return in.a + inst.m; }')
     if v['res'] == 'none':
         out.append(f'@fragment fn {NAMES["fs"]}() {{}}')
@@ -167,8 +167,9 @@ def static_conditions(f, extra_stage_concrete, names=NAMES):
     cs.append(('vertex helper exists', vs is not None))
     if vs:
         cs.append(('vertex helper: one buffer per struct parameter, in order',
-                   vs['n_ret'] == 2 and vs['buffers'] == ['VIn :: vertex_buffer_layout (v_in)', 'VInst :: vertex_buffer_layout (v_inst)']
-                   and vs['params'] == [('v_in', 'wgpu :: VertexStepMode'), ('v_inst', 'wgpu :: VertexStepMode')]))
+                   vs['n_ret'] == 3 and vs['buffers'] == ['VIn :: vertex_buffer_layout (v_in)', 'VBuiltins :: vertex_buffer_layout (v_builtins)',
+                                                          'VInst :: vertex_buffer_layout (v_inst)']
+                   and vs['params'] == [('v_in', 'wgpu :: VertexStepMode'), ('v_builtins', 'wgpu :: VertexStepMode'), ('v_inst', 'wgpu :: VertexStepMode')]))
         cs.append(('vertex helper names its own entry', vs['fields'].get('entry_point') == f'ENTRY_{up["vs"]}'))
     p = f['pipes'].get(f'create_{names["cs"]}_pipeline')
     cs.append(('compute pipeline constructor exists', p is not None))
@@ -201,7 +202,7 @@ def static_conditions(f, extra_stage_concrete, names=NAMES):
 def run(ctx):
     module, h = build(ctx)
     src = h.src
-    ctx.bounds = {'entries': '4 (vertex with 2 struct parameters + a builtin, fragment, compute, one of symbolic stage)',
+    ctx.bounds = {'entries': '4 (vertex with 3 struct parameters, one of them made of builtins only; fragment; compute; one of symbolic stage)',
                   'fragment result': f'none / @location(l) / builtin / struct of {NMEMBERS} members each builtin or @location(l_i); l over all u32',
                   'workgroup size': '3 x all of u32', 'names': list(NAMES.values())}
     ctx.assumptions += ['"as many colour targets as are needed to address every @location" = 1 + the highest location written (0 if none)',
